@@ -57,7 +57,7 @@ def main(argv):
     for k in range(8 if thorough else 3):
         jobs.append({"r3": True, "seed": common.seed() * 1000 + 700 + k, "behaviours": 4000, "max_cases": 150 if thorough else 60,
                      "groups": 600 if thorough else 150,
-                     "simcfg": "MC_faults_simf.cfg" if k % 2 == 0 else "MC_faults_sim.cfg"})
+                     "simcfg": ["MC_faults_simf.cfg", "MC_faults_sim.cfg", "MC_faults_simw.cfg"][k % 3]})
     results = genrun.run_jobs("checks.c15", "job", jobs)
     bad = genrun.merge(rep, results)
     rc = rep.finish()
